@@ -139,7 +139,10 @@ def make_objective(ctx, spec):
             v += args[0]
         v, fk = ctx.faulted("obj", idx, xl, xb, v)
         ctx.log({"k": "obj", "x": xb, "v": float(v), "f": fk, "i": idx,
-                 "shape": tuple(np.shape(x)), "nargs": len(args)})
+                 "shape": tuple(np.shape(x)), "nargs": len(args), "args": [float(a) for a in args]})
+        if spec.get("mutates") and isinstance(x, np.ndarray) and x.flags.writeable:
+            x[...] = 77.0           # naive user code overwriting the array it was given
+            ctx.fire("mutate-input")
         hook = ctx.world.reenter_hook
         if hook is not None:
             hook(ctx, "obj", idx)
@@ -189,8 +192,11 @@ def make_constraint_fun(ctx, j, spec):
             vals.append(float(v))
             fks.append(fk)
         ctx.log({"k": "con", "j": j, "x": xb, "v": vals, "f": fks, "i": idx,
-                 "shape": tuple(np.shape(x)), "nargs": len(args),
+                 "shape": tuple(np.shape(x)), "nargs": len(args), "args": [float(a) for a in args],
                  "ncall": ctx.con_calls[j]})
+        if spec.get("mutates") and isinstance(x, np.ndarray) and x.flags.writeable:
+            x[...] = -77.0
+            ctx.fire("mutate-input")
         ctx.world.yield_point(ctx, "con.ret")
         if ret == "list":
             return list(vals)
